@@ -42,7 +42,8 @@ M_SECTIONS = [
     [("h", "WithLet"), ("let", "m = extract(\"(\\\\d+)\")"), ("let", "n = m"), ("match", 'n != ""'), ("category", "Numbered"),
      ("field", "num = n")],
     [("h", "TagOnly"), ("match", 'field.type == "X"'), ("tags", "{extract(\"(\\\\d+)\")}, kid's, school")],
-    [("h", "Colon: Name"), ("match", 'contains("A:B") and amount == 5'), ("category", "Food: Drink"), ("tags", "x")],
+    [("h", "Colon: Name"), ("match", 'contains("A:B") and amount == 5'), ("category", "Food: Drink #1"), ("subcategory", "Sub # 2"),
+     ("tags", "x, #y, z #w")],
     [("h", "Src"), ("match", 'source == "Amex" or regex("AM(EX|AZON)")'), ("subcategory", "OnlySub"), ("tags", "t1")],
 ]
 M_PREAMBLES = [
